@@ -519,6 +519,10 @@ func matchFilter(filter Filter, value interface{}) (bool, interface{}, error) {
 				return true, value, nil
 			}
 		}
+		if filter.Type != "array" {
+			// none of the elements matched
+			return false, nil, nil
+		}
 	default:
 		// object not supported for now
 		return false, nil, ErrUnsupportedFilter
